@@ -230,3 +230,107 @@ def read_all(grid, node, offset=0, size=None, consumer=None, **kw):
     c = consumer or RecordingConsumer()
     st, res = grid.wait(node.read(c, offset, size), **kw)
     return st, res, c
+
+
+# ------------------------------------------------------------ adversarial sets
+class FixedKeyData(_upload.Data):
+    """Uploadable with a caller-chosen AES key (what a malicious or merely
+    unusual uploader may do; the protocol does not constrain key choice)."""
+
+    def __init__(self, data, key):
+        _upload.Data.__init__(self, data, convergence=None)
+        self._fixed_key = key
+
+    def get_encryption_key(self):
+        return defer.succeed(self._fixed_key)
+
+
+def honest_shares(nservers, params, data, key, seed=0):
+    """Upload `data` under `key` on a scratch grid; return (cap, {shnum: bytes of
+    the share file}).  The scratch grid is closed before returning."""
+    from vf.grid import VGrid
+    g = VGrid(nservers=nservers, seed=seed, profile="fifo", keep_log=False)
+    try:
+        c = g.make_client(k=params["k"], happy=1, n=params["n"], max_segment_size=params["segsize"])
+        st, res = g.wait(c.upload(FixedKeyData(data, key)))
+        if st != "ok":
+            raise RuntimeError("scratch upload failed: %r" % (res,))
+        from allmydata import uri
+        u = uri.from_string(res.get_uri())
+        out = {}
+        for (vs, shnum, path) in g.find_shares(u.get_storage_index()):
+            with open(path, "rb") as f:
+                out[shnum] = f.read()
+        return res.get_uri(), out
+    finally:
+        g.close()
+
+
+def forge_mixed_set(shares_a, shares_b, from_b, k, n, size, key):
+    """Malicious-uploader share set: share i comes from file B when i in
+    from_b, else from file A (same key, size and encoding).  Every share gets
+    A's ciphertext hash tree; the share hash tree and the UEB are recomputed so
+    that the set is self-consistent and validates against the returned cap.
+    Only the ciphertext check can notice that blocks of A and B are mixed.
+    Returns (cap_bytes, {shnum: share file bytes})."""
+    import tempfile
+    from allmydata import uri as _uri
+    from allmydata.hashtree import HashTree
+    from allmydata.util import hashutil
+
+    def parse(raw):
+        fd, p = tempfile.mkstemp(prefix="vf-share-")
+        os.write(fd, raw)
+        os.close(fd)
+        try:
+            return ShareFile(p)
+        finally:
+            os.unlink(p)
+
+    pa = {i: parse(raw) for i, raw in shares_a.items()}
+    pb = {i: parse(raw) for i, raw in shares_b.items()}
+    any_a = pa[min(pa)]
+    ct_s, ct_e = any_a.region("crypttext_hash_tree")
+    ct_tree_a = any_a.data()[ct_s:ct_e]
+    roots = []
+    src = {}
+    for i in range(n):
+        sf = (pb if i in from_b else pa)[i]
+        src[i] = sf
+        bs, be = sf.region("block_hashes")
+        roots.append(sf.data()[bs:bs + 32])
+    t = HashTree(roots)
+    ueb = dict(any_a.ueb())
+    ueb["share_root_hash"] = t[0]
+    ueb_bytes = _uri.pack_extension(ueb)
+    assert len(ueb_bytes) == len(any_a.ueb_bytes())
+    out = {}
+    for i in range(n):
+        sf = src[i]
+        d = bytearray(sf.data())
+        s, e = sf.region("crypttext_hash_tree")
+        assert e - s == len(ct_tree_a)
+        d[s:e] = ct_tree_a
+        chain = b"".join(struct.pack(">H", hi) + t[hi] for hi in sorted(t.needed_hashes(i, include_leaf=True)))
+        s, e = sf.region("share_hashes")
+        assert len(chain) <= e - s
+        d[s:s + len(chain)] = chain
+        s, e = sf.region("uri_extension")
+        fs = sf.fieldsize
+        d[s + fs:s + fs + len(ueb_bytes)] = ueb_bytes
+        sf.replace_data(bytes(d))
+        out[i] = bytes(sf.raw)
+    cap = _uri.CHKFileURI(key=key, uri_extension_hash=hashutil.uri_extension_hash(ueb_bytes),
+                          needed_shares=k, total_shares=n, size=size).to_string()
+    return cap, out
+
+
+def install_shares(grid, si, shares, placement=None):
+    """Write share files {shnum: bytes} into the grid's server directories.
+    placement: {shnum: server index}; default shnum % nservers."""
+    for shnum, raw in shares.items():
+        vs = grid.servers[(placement or {}).get(shnum, shnum % len(grid.servers))]
+        d = vs.sharedir(si)
+        os.makedirs(d, exist_ok=True)
+        with open(os.path.join(d, "%d" % shnum), "wb") as f:
+            f.write(raw)
